@@ -24,6 +24,9 @@ def windows(n, tier):
         for b in range(a + 1, n + 1):
             spell = [(a, b), (a if a else None, b if b < n else None),
                      (a - n, (b - n) if b < n else None)]
+            if a == 0:
+                # a negative start that reaches past the first cell is clipped to it
+                spell.append((-n - 3, b if b < n else None))
             if tier == 'thorough':
                 spell.append((a, b if b < n else n + 2))
             for s0, s1 in spell:
@@ -99,6 +102,16 @@ class Prop(core.Prop):
         if len(group['dims']) >= 3:
             tier = 'quick'      # canonical spellings only for 3-4 simultaneous windows
         axes = [windows(n[d], tier) for d in group['dims']]
+        if group['dims'] == ['TSTEP'] and n['TSTEP'] >= 3:
+            # strided windows: every k-th step (the new step is k times the old one, also beyond 24 h)
+            for k in (2, 3):
+                for a in (0, 1):
+                    if len(range(a, n['TSTEP'], k)) >= 2:
+                        yield {'ioapi': rec, 'win': [['TSTEP', ['s', a, None, k], a, n['TSTEP']]], 'stride': k}
+            # the same windows on a source that keeps its time axis in SDATE/STIME/TSTEP only (no TFLAG variable)
+            for w in windows(n['TSTEP'], 'quick'):
+                if w[0][0] != 'I':
+                    yield {'ioapi': rec, 'win': [['TSTEP', list(w[0]), w[1], w[2]]], 'notflag': True}
         for combo in itertools.product(*axes):
             yield {'ioapi': rec, 'win': [[d, list(w[0]), w[1], w[2]]
                                          for d, w in zip(group['dims'], combo)]}
@@ -117,6 +130,8 @@ class Prop(core.Prop):
             v = f.createVariable('ADDED', 'f', ('TSTEP', 'LAY', 'ROW', 'COL'))
             v.units, v.long_name, v.var_desc = 'ppmV'.ljust(16), 'ADDED'.ljust(16), 'ADDED'.ljust(80)
             v[...] = 2.5
+        if case.get('notflag') and not rec.get('uneven'):
+            del f.variables['TFLAG']
         sdate, stime = ioapi_u.STARTS[rec['start']]
         exp_times = rtime.ioapi_times(sdate, stime, rec['tstep'], rec['nt'])
         if rec.get('uneven'):
@@ -141,7 +156,8 @@ class Prop(core.Prop):
             win[d] = (a, b)
         sig = ('sliceDimensions', '+'.join(sorted(c.split(':')[0] for c in cls)))
         scope = {'dims': '+'.join(sorted(win)), 'selkinds': '+'.join(sorted(cls)),
-                 'tstep': rec['tstep'], 'added': bool(case.get('added')), 'uneven': bool(rec.get('uneven'))}
+                 'tstep': rec['tstep'], 'added': bool(case.get('added')), 'uneven': bool(rec.get('uneven')),
+                 'stride': case.get('stride', 1), 'notflag': bool(case.get('notflag'))}
         try:
             g = f.sliceDimensions(**kw)
         except Exception as e:
@@ -165,6 +181,8 @@ class Prop(core.Prop):
                            % (gvg, src_vg[a:b + 1], a, b), **scope))
         a, b = win.get('TSTEP', (0, rec['nt']))
         want = exp_times[a:b]
+        if case.get('stride'):
+            want = exp_times[a:b:case['stride']]
         try:
             got = [rtime.to_utc_naive(t) for t in g.getTimes()]
         except Exception as e:
@@ -176,12 +194,19 @@ class Prop(core.Prop):
         if int(g.SDATE) != ws or int(g.STIME) != wt:
             vs.append(viol('sdate-stime', sig, 'SDATE,STIME=%r,%r expected %d,%d'
                            % (g.SDATE, g.STIME, ws, wt), **scope))
-        if int(g.TSTEP) != int(src['TSTEP']) and not rec.get('uneven'):
+        if case.get('stride') and not rec.get('uneven'):
+            ts = int(src['TSTEP'])
+            sec = (ts // 10000 * 3600 + ts % 10000 // 100 * 60 + ts % 100) * case['stride']
+            want_ts = sec // 3600 * 10000 + sec % 3600 // 60 * 100 + sec % 60
+            if int(g.TSTEP) != want_ts:
+                vs.append(viol('tstep-of-strided-window', sig, 'TSTEP=%r expected %d (every %d-th step of %d)'
+                               % (g.TSTEP, want_ts, case['stride'], ts), **scope))
+        elif int(g.TSTEP) != int(src['TSTEP']) and not rec.get('uneven'):
             vs.append(viol('tstep-changed', sig, 'TSTEP=%r expected %r (window of %d steps)'
                            % (g.TSTEP, src['TSTEP'], b - a), nsteps=b - a, **scope))
         nontriv = any((b_ - a_) < {'TSTEP': rec['nt'], 'LAY': rec['nl'], 'ROW': rec['nr'],
                                     'COL': rec['nc']}[d] for d, (a_, b_) in win.items())
         st = [h64(rec), h64(rec, sorted(win.items()))]
         return result('viol' if vs else 'ok', vs, st, 1,
-                      h64(rec, case['win'], case.get('added')) if nontriv else None,
+                      h64(rec, case['win'], case.get('added'), case.get('stride'), case.get('notflag')) if nontriv else None,
                       h64(float(g.XORIG), float(g.YORIG), gvg.tobytes(), repr(got)) if not vs else None)
